@@ -28,6 +28,9 @@ type c01Case struct {
 	Perturb    string `json:"context_perturbation,omitempty"`
 	RawBitmap  []byte `json:"raw_bitmap,omitempty"`
 	WantAccept bool   `json:"reference_accepts"`
+	// SharedKey: the last voter's seat carries the same BLS vote key as the seat before it
+	// (reachable at run time: two joiners registered with the same key hash)
+	SharedKey bool `json:"shared_vote_key,omitempty"`
 }
 
 type c01World struct {
@@ -39,7 +42,9 @@ type c01World struct {
 	tip     uint64
 }
 
-func newC01World(nVoters int) (*c01World, error) {
+func newC01World(nVoters int) (*c01World, error) { return newC01WorldShared(nVoters, false) }
+
+func newC01WorldShared(nVoters int, shared bool) (*c01World, error) {
 	cfg := sim.DefaultCfg(1, nVoters)
 	n, err := sim.NewChain(cfg)
 	if err != nil {
@@ -50,6 +55,23 @@ func newC01World(nVoters int) (*c01World, error) {
 	}
 	w := &c01World{n: n, root: n.Ctx(), tip: cfg.BtcTip}
 	w.members = append([]sim.Member{cfg.Proposer}, cfg.Voters...)
+	if shared && nVoters >= 2 {
+		// two seats, one vote key: the second seat's record and the harness's signer both use the
+		// key of the seat before it; a mark on each seat demands that key's signature twice
+		ctx, _ := n.Ctx().CacheContext()
+		last, prev := w.members[nVoters], w.members[nVoters-1]
+		rec, err := n.App.RelayerKeeper.Voters.Get(ctx, last.AddrStr())
+		if err != nil {
+			return nil, err
+		}
+		rec.VoteKey = prev.BLS.PK
+		if err := n.App.RelayerKeeper.Voters.Set(ctx, last.AddrStr(), rec); err != nil {
+			return nil, err
+		}
+		w.members = append([]sim.Member{}, w.members...)
+		w.members[nVoters].BLS = prev.BLS
+		w.root = ctx
+	}
 	return w, nil
 }
 
@@ -75,6 +97,40 @@ func refAccept(n int, marks []int, signers []int) bool {
 	}
 	for _, s := range signers {
 		if !want[s] {
+			return false
+		}
+	}
+	return len(marks)+1 >= refThreshold(n)
+}
+
+// refAcceptShared is the same predicate when the last two seats carry one vote key: what must
+// match is the multiset of keys - the keys behind the proposer and the marked seats on one
+// side, the keys that signed on the other (member index n signs with the key of member n-1).
+func refAcceptShared(n int, marks []int, signers []int) bool {
+	keyOf := func(member int) int {
+		if member == n {
+			return n - 1
+		}
+		return member
+	}
+	seen := map[int]bool{}
+	need := map[int]int{0: 1}
+	for _, m := range marks {
+		if m < 0 || m >= n || seen[m] {
+			return false
+		}
+		seen[m] = true
+		need[keyOf(m+1)]++
+	}
+	have := map[int]int{}
+	for _, s := range signers {
+		have[keyOf(s)]++
+	}
+	if len(have) != len(need) {
+		return false
+	}
+	for k, c := range need {
+		if have[k] != c {
 			return false
 		}
 	}
@@ -177,7 +233,7 @@ func runC01(r *mc.Run) {
 		maxN = 5
 	}
 	r.Bounds["max_voters"] = maxN
-	r.Rule = "for each group size n: every subset of the position alphabet {0..n-1} u {n,n+1,63,64,255} as bitmap (minimal 8-byte-multiple encoding, plus longer encodings for the in-range marks) x every subset of members that signed, delivered through the application's MsgServiceRouter handler of MsgNewBlockHashes; NewPubkey and NewConsolidation: the same full product for n <= 2, accepting class + rejecting representatives above; every single-field perturbation of the signing context on the accepting case of each kind; odd bitmap lengths; Threshold() vs integer ceil for n in [0,255]; payload binding: for every voted kind (block-hash lists of 1, 2, 15, 16 hashes, new key, consolidation, process with 1 and 2 ids, replace) every single-field mutation of the payload (each byte of each byte field in two bits, lengths +-1, integers +-1 / high bits, list edits) delivered with the unchanged genuine vote must be rejected"
+	r.Rule = "for each group size n: every subset of the position alphabet {0..n-1} u {n,n+1,63,64,255} as bitmap (minimal 8-byte-multiple encoding, plus longer encodings for the in-range marks) x every subset of members that signed, delivered through the application's MsgServiceRouter handler of MsgNewBlockHashes; NewPubkey and NewConsolidation: the same full product for n <= 2, accepting class + rejecting representatives above; every single-field perturbation of the signing context on the accepting case of each kind; odd bitmap lengths; groups of 2 and 3 voters in which two seats carry the same vote key (every mark set x every signer set: a mark on each seat needs that key's signature twice); Threshold() vs integer ceil for n in [0,255]; payload binding: for every voted kind (block-hash lists of 1, 2, 15, 16 hashes, new key, consolidation, process with 1 and 2 ids, replace) every single-field mutation of the payload (each byte of each byte field in two bits, lengths +-1, integers +-1 / high bits, list edits) delivered with the unchanged genuine vote must be rejected"
 	r.Assumptions = []string{"BLS12-381 aggregate signatures are unforgeable (trusted)", "MsgProcessWithdrawal/MsgReplaceWithdrawal quorum cases are exercised in C05's per-state ill-formed variants"}
 
 	// Threshold() for the whole domain
@@ -264,7 +320,22 @@ func runC01(r *mc.Run) {
 		}
 		cases = append(cases, &c01Case{Voters: n, Kind: "NewBlockHashes", RawBitmap: []byte{}, Marks: nil, Signers: []int{0}})
 	}
+	// seats sharing one vote key: every set of in-range marks x every signer set, n = 2 and 3
+	for _, n := range []int{2, 3} {
+		if n > maxN {
+			continue
+		}
+		for _, marks := range subsets(n) {
+			for _, ss := range subsets(n + 1) {
+				cases = append(cases, &c01Case{Voters: n, Kind: "NewBlockHashes", Marks: marks, BitmapLen: 8, Signers: ss, SharedKey: true})
+			}
+		}
+	}
 	for _, c := range cases {
+		if c.SharedKey {
+			c.WantAccept = refAcceptShared(c.Voters, c.Marks, c.Signers)
+			continue
+		}
 		c.WantAccept = c.Perturb == "" && refAccept(c.Voters, c.Marks, c.Signers)
 	}
 	r.States.Store(int64(len(cases)))
@@ -279,7 +350,7 @@ func runC01(r *mc.Run) {
 			worlds[n] = l[:len(l)-1]
 			return w
 		}
-		w, err := newC01World(n)
+		w, err := newC01WorldShared(n%100, n >= 100)
 		if err != nil {
 			panic(err)
 		}
@@ -289,8 +360,12 @@ func runC01(r *mc.Run) {
 
 	mc.Parallel(len(cases), runtime.NumCPU(), func(i int) {
 		c := cases[i]
-		w := getWorld(c.Voters)
-		defer putWorld(c.Voters, w)
+		wk := c.Voters
+		if c.SharedKey {
+			wk += 100
+		}
+		w := getWorld(wk)
+		defer putWorld(wk, w)
 		acc, p, changed := w.eval(c)
 		r.Transitions.Add(1)
 		r.Validated.Add(1)
@@ -361,7 +436,7 @@ func replayC01(detail json.RawMessage) (bool, string) {
 		rel := relayertypes.Relayer{Voters: make([]string, c.Voters)}
 		return rel.Threshold() != refThreshold(c.Voters), fmt.Sprintf("Threshold()=%d ref=%d", rel.Threshold(), refThreshold(c.Voters))
 	}
-	w, err := newC01World(c.Voters)
+	w, err := newC01WorldShared(c.Voters, c.SharedKey)
 	if err != nil {
 		return false, err.Error()
 	}
